@@ -129,6 +129,36 @@ def build(case):
     return doc, els
 
 
+GUARD_S = 20                 # no call on these trees (<= ~60 elements) legitimately runs anywhere near this long
+CONFIRM_STEPS = 3_000_000    # traced line events inside soupsieve that decide "does not terminate"
+SLOW = []
+
+
+def guarded(fn, fails, what):
+    """Run one library call.  A call still running after GUARD_S seconds is a *suspected* hang: it is interrupted and
+    run again under the line-event counter; only exceeding CONFIRM_STEPS steps is reported (clock-free verdict), a call
+    that is merely slow is noted as inconclusive.  Returns ('ok', value) | ('raise', exc) | ('timeout', None)."""
+    try:
+        with common.wall_guard(GUARD_S):
+            return ('ok', fn())
+    except common.CallTimeout:
+        pass
+    except Exception as e:  # noqa: BLE001
+        return ('raise', e)
+    try:
+        with common.wall_guard(300):
+            run_with_step_budget(fn, CONFIRM_STEPS)
+        SLOW.append(what)
+    except StepBudget:
+        fails.append(('matching-does-not-terminate-in-step-budget',
+                      f'{what} was still running after {GUARD_S} s and then exceeded {CONFIRM_STEPS} traced steps inside soupsieve'))
+    except common.CallTimeout:
+        SLOW.append(what + ' (traced run also slow without making steps)')
+    except Exception:  # noqa: BLE001
+        SLOW.append(what + ' (raised when traced)')
+    return ('timeout', None)
+
+
 def where(e):
     tb = traceback.extract_tb(e.__traceback__)
     return next((f'{os.path.basename(f.filename)}:{f.name}' for f in reversed(tb) if 'soupsieve' in f.filename), '?')
@@ -147,11 +177,13 @@ def run_calls(comp, text, target, els, fails, ckw):
     n = 0
     for name, fn in calls:
         n += 1
-        try:
-            out = fn()
-        except Exception as e:  # noqa: BLE001
+        kind, out = guarded(fn, fails, f'{name}({text!r})')
+        if kind == 'raise':
+            e = out
             fails.append((f'raises-{type(e).__name__}-{where(e)}',
                           f'{name}({text!r}) raised {type(e).__name__}: {str(e)[:200]}'))
+            continue
+        if kind == 'timeout':
             continue
         if name in ('select', 'iselect', 'filter', 'filter-list', 'select-limit', 'module-select'):
             if not isinstance(out, list) or not all(isinstance(x, bs4.Tag) for x in out):
@@ -203,9 +235,9 @@ def evaluate(case):
                                  ('filter', lambda: comp.filter([v])), ('select', lambda: comp.select(v)),
                                  ('select_one', lambda: comp.select_one(v))):
                     n += 1
-                    try:
-                        fn()
-                    except Exception as e:  # noqa: BLE001
+                    kind, out = guarded(fn, fails, f'{name}({text!r}) on the detached element {safe_str(v)!r}')
+                    if kind == 'raise':
+                        e = out
                         fails.append((f'raises-{type(e).__name__}-{where(e)}',
                                       f'{name}({text!r}) on the detached element {safe_str(v)!r} raised {type(e).__name__}: {str(e)[:150]}'))
         met.add('detached-element')
@@ -281,4 +313,5 @@ def shard(ctx):
     ex = common.hyp_run(choose.choices(4096), body, 40000 if tier == 'quick' else 4000000, ctx['hseed'],
                         deadline_ts=ctx['t_end'])
     col.extra['budget_exhausted'] = int(ex)
+    col.extra['slow_calls_inconclusive'] = [x[:200] for x in SLOW[:5]]
     return col
